@@ -27,8 +27,10 @@ EXHAUSTIVE = {
                 "none / partially regularized for H*W in {5, 6}); all object structures (params in {1,2}, regularized or not) "
                 "of length <= 4",
 }
-TRUSTED = ["hand-written Gallina model coq/Model/C08.v of fit_util.py / fit_dataset.py / fit_imaging.py / the evidence terms of "
-           "inversion/abstract.py (no translator), tied to /repo by this correspondence run only",
+TRUSTED = ["Gallina model coq/Model/C08.v of fit_util.py / fit_dataset.py / fit_imaging.py / the evidence terms of "
+           "inversion/abstract.py, hand-written and tied to /repo by this correspondence run; only the three composition formulas "
+           "(log_likelihood_from, log_likelihood_with_regularization_from, log_evidence_from) are regenerated from fit_util.py by "
+           "py2v/gen_fit.py (fail-closed) into coq/Gen/Gen_fit.v on every run",
            "correspondence harness harness/c08.py; native 2-D arrays are passed to the model flattened row-major",
            "QOps execution device: finite ln table supplied per case (ln of 2*pi*noise^2 and of the two determinants, "
            "computed with math.log); ln-dependent outputs are compared under 1e-9 relative tolerance inside Coq and again in "
